@@ -113,7 +113,7 @@ func genSpec(cfg Config) *rapid.Generator[spec] {
 				intents = append(intents, "file", "file", "dir", "dangling", "chain", "dotslash", "updown")
 			}
 			if cfg.OutLinks {
-				intents = append(intents, "out-rel-file", "out-rel-dir", "out-abs-file", "out-abs-dir", "sibling-prefix", "in-abs", "out-chain", "out-dangling", "climb-by-name")
+				intents = append(intents, "out-rel-file", "out-rel-dir", "out-abs-file", "out-abs-dir", "sibling-prefix", "in-abs", "out-chain", "out-dangling", "climb-by-name", "exact-parent", "exact-root")
 			}
 			if len(cfg.LinkIntents) > 0 {
 				intents = cfg.LinkIntents
@@ -162,6 +162,10 @@ var NestedOutside = fsx.Tree{
 	{Path: "ext/d/up", Kind: "symlink", Target: "../f"},
 	{Path: "ext/d/far", Kind: "symlink", Target: "{R}/x/y/z/ext2/k"},
 	{Path: "ext/d/e/updir", Kind: "symlink", Target: "../../../x/y/z/ext2"},
+	{Path: "ext/d/absin", Kind: "symlink", Target: "{R}/ext/d/g"},
+	{Path: "ext/d/reenter", Kind: "symlink", Target: "../d/g"},
+	{Path: "ext/d/e/reenter2", Kind: "symlink", Target: "../../d/e/h"},
+	{Path: "ext/d/absdir", Kind: "symlink", Target: "{R}/ext/d/e"},
 }
 
 // Build turns specs into a tree; link targets are rendered once all paths are known.
@@ -299,6 +303,21 @@ func build(specs []spec, cfg Config) fsx.Tree {
 			n.Target = ups + "../ext/" + []string{"chain", "chain2", "dirchain"}[pick%3]
 		case "out-dangling":
 			n.Target = []string{ups + "../ext/nothing", "{R}/nowhere", ups + "../../../nowhere"}[pick%3]
+		case "exact-parent":
+			// exactly the directory that contains the source directory
+			n.Target = strings.TrimSuffix(ups+"..", "/")
+			if pick%3 == 0 {
+				n.Target = "{R}"
+			}
+		case "exact-root":
+			// exactly the source directory itself
+			n.Target = strings.TrimSuffix(ups, "/")
+			if n.Target == "" {
+				n.Target = "."
+			}
+			if pick%3 == 0 {
+				n.Target = "{R}/src"
+			}
 		case "climb-by-name":
 			// in-tree on disk only because the root is called "src"
 			if len(files) == 0 {
